@@ -2053,18 +2053,27 @@ def wls_sparse(
 
     wX = w_std * X if not sp.issparse(X) else X.multiply(w_std)
 
+    # Scale the columns to unit norm so that the conditioning of the system
+    # does not depend on the units of the coefficients (e.g., fiber length).
+    if sp.issparse(wX):
+        col_scale = np.sqrt(np.asarray(wX.multiply(wX).sum(axis=0)).ravel())
+    else:
+        col_scale = np.sqrt((np.asarray(wX) ** 2).sum(axis=0))
+    col_scale[col_scale == 0.0] = 1.0
+    wXs = wX.multiply(1 / col_scale).tocsr() if sp.issparse(wX) else wX / col_scale
+
     if x0 is None:
         # noinspection PyTypeChecker
-        out_sol = ln.lsqr(wX, wy, show=verbose, calc_var=True, **solver_kwargs)
-        p_sol = out_sol[0]
+        out_sol = ln.lsqr(wXs, wy, show=verbose, calc_var=True, **solver_kwargs)
+        p_sol = out_sol[0] / col_scale
 
     else:
         wr0 = wy - wX.dot(x0)
 
         # noinspection PyTypeChecker
-        out_sol = ln.lsqr(wX, wr0, show=verbose, calc_var=True, **solver_kwargs)
+        out_sol = ln.lsqr(wXs, wr0, show=verbose, calc_var=True, **solver_kwargs)
 
-        p_sol = x0 + out_sol[0]
+        p_sol = x0 + out_sol[0] / col_scale
 
     # The residual degree of freedom, defined as the number of observations
     # minus the rank of the regressor matrix.
@@ -2075,7 +2084,7 @@ def wls_sparse(
     err_var = np.dot(wresid, wresid) / degrees_of_freedom_err
 
     if calc_cov:
-        arg = wX.T.dot(wX)
+        arg = wXs.T.dot(wXs)
 
         if sp.issparse(arg):
             # arg_inv = np.linalg.inv(arg.toarray())
@@ -2084,7 +2093,7 @@ def wls_sparse(
             # arg_inv = np.linalg.inv(arg)
             arg_inv = np.linalg.lstsq(arg, np.eye(npar), rcond=None)[0]
 
-        p_cov = np.array(arg_inv * err_var)
+        p_cov = np.array(arg_inv) / np.outer(col_scale, col_scale) * err_var
         p_var = np.diagonal(p_cov)
 
         if np.any(p_var < 0):
@@ -2098,7 +2107,7 @@ def wls_sparse(
             return p_sol, p_var, p_cov, wresid
         return p_sol, p_var, p_cov
 
-    p_var = out_sol[-1] * err_var  # normalized covariance
+    p_var = out_sol[-1] / col_scale**2 * err_var  # normalized covariance
 
     if return_werr:
         return p_sol, p_var, wresid
